@@ -48,7 +48,7 @@ def step (s : St) (ws : List String) : IO (St × String) := do
     let wk := Wal.walk s.wal
     let cnt := fun (q : Wal.Rec → Bool) => (wk.filter fun pr => q pr.2).length
     let b := fun (x : Bool) => if x then 1 else 0
-    return (s, s!"wf sep={b (s.wal.headD 0 == Gen.Wal.WOP_SEP)} closed={b (Wal.segClosedB s.wal)} full={b (Wal.walkFull s.wal)} nrec={wk.length} nsp={cnt (· == .savepoint)} nreset={cnt (· == .reset)}")
+    return (s, s!"wf sep={b (s.wal.headD 0 == Gen.Wal.WOP_SEP)} closed={b (Wal.segClosedB s.wal)} disj={b (Wal.segDisjointB s.wal)} rsep={b (Wal.resetAfterSepB s.wal)} full={b (Wal.walkFull s.wal)} nrec={wk.length} nsp={cnt (· == .savepoint)} nreset={cnt (· == .reset)}")
   | ["scan", cut, fl] =>
     let d := damaged s.wal (natArg cut) (parseFlips fl)
     let (f, r) := Wal.prescan d
